@@ -365,9 +365,12 @@ def translate_tables():
         "true" if (re.search(r"let\s+head_incomplete\s*=\s*matches!\(self\.position,\s*Position::Server\)\s*&&\s*!kawa\.is_main_phase\(\)\s*&&\s*!kawa\.is_error\(\)\s*;", wb)
                    and re.search(r"if\s+!head_incomplete\s*\{(?:(?!\n        \}).)*kawa\.prepare\(&mut kawa::h1::BlockConverter\)", wb, re.S)
                    and len(re.findall(r"kawa\.prepare\(", wb)) == 1) else "false"))
+    h1es, _ = R.fn_body(h1, "end_stream")
+    lines.append("Definition gen_park_requires_terminated : bool := %s." % (
+        "true" if re.search(r"if\s+stream_context\.keep_alive_backend\s*&&\s*stream\.back\.is_terminated\(\)\s*&&\s*!interim\s*\{\s*\*status\s*=\s*BackendStatus::KeepAlive\s*;\s*\}\s*else\s*\{\s*self\.force_disconnect\(\)", h1es) else "false"))
     lines.append("Definition gen_tables : tables :=\n  mkT gen_esd gen_connect gen_redirect_fallback gen_front_timeout gen_back_timeout\n"
                  "      (fun h2 => if h2 then gen_end_arm_h2 else gen_end_arm_h1) gen_default_answer_effs gen_force_effs gen_known_codes\n"
-                 "      gen_conn_retries gen_retry_guard_ge gen_rearm_after_write gen_rearm_delay_close gen_rearm_wait gen_rearm_backend_wait\n      gen_h1_close_after_close gen_h1_close_if_request_open gen_h1_head_gate.")
+                 "      gen_conn_retries gen_retry_guard_ge gen_rearm_after_write gen_rearm_delay_close gen_rearm_wait gen_rearm_backend_wait\n      gen_h1_close_after_close gen_h1_close_if_request_open gen_h1_head_gate\n      gen_park_requires_terminated.")
     return "\n".join(lines) + "\n", fails
 
 
@@ -591,7 +594,7 @@ def bb_scenarios(tier, rng):
           ("continue_then_close", 0), ("continue_then_close", 1), ("continue_then_close", 2),
           ("upgrade_then_close", 0), ("two_finals", 0),
           ("reuse_stall", 0), ("reuse_stall_after", 65), ("reuse_close_at", 0), ("reuse_close_at", 30), ("reuse_close_at", 65),
-          ("reuse_reset_at", 0), ("sticky_refusing", 0)]
+          ("reuse_reset_at", 0), ("sticky_refusing", 0), ("abort_then_next", 0)]
     if tier != "quick":
         s += [("close_at", k) for k in range(0, len(HEAD_CL + BODY) + 1)]
         s += [("reset_at", k) for k in range(0, len(HEAD_CL + BODY), 3)]
@@ -651,7 +654,7 @@ def extra_stage(tier, rng, work):
             flat += sch
             continue
         if kind in ("keepalive_close", "cl_close_twice", "early_response", "continue100", "expect100", "hints103", "processing102",
-                    "continue_then_close", "upgrade_then_close", "two_finals", "sticky_refusing"):
+                    "continue_then_close", "upgrade_then_close", "two_finals", "sticky_refusing", "abort_then_next"):
             index.append(None)
             continue
         sch, blen = predict_inputs(kind, k)
@@ -675,6 +678,9 @@ def extra_stage(tier, rng, work):
             for r in rs:
                 if r.get("hang"):
                     bad.append((i, "bb-hang", "%s %d: no answer and no close within the deadline" % (kind, k)))
+                if r.get("emb"):
+                    bad.append((i, "bb-answer-in-body", "%s %d: a status line sits inside the body of a response that had started (status %s): answer bytes were appended to it"
+                                % (kind, k, r.get("status"))))
                 if r.get("extra") and r.get("status", 0) // 100 != 1:
                     bad.append((i, "bb-two-answers", "%s %d: %d bytes follow a complete response" % (kind, k, r["extra"])))
             if kind == "early_response":
@@ -701,6 +707,12 @@ def extra_stage(tier, rng, work):
                 elif cl[1] not in want:
                     bad.append((i, "bb-reuse", "%s %d: the second request on the reused connections observed '%s', the automaton predicts %s"
                                 % (kind, k, cl[1], want)))
+                continue
+            if kind == "abort_then_next":
+                ok = len(rs) == 2 and rs[0]["body"] >= 10000 and classify_obs(rs[1]) == "relay" and rs[1]["body"] == 6 and rs[1].get("b0") == 115
+                if not ok:
+                    bad.append((i, "bb-cross-request", "abort_then_next: observed %s: after a client went away in the middle of a download the next client must get its own response ('second'), never the rest of the other one"
+                                % [(r["status"], r["body"], r.get("b0")) for r in rs]))
                 continue
             if kind == "sticky_refusing":
                 # 503 is for "no usable backend": a healthy sibling exists, the refusing sticky target must not exhaust the retries
